@@ -148,8 +148,8 @@ Print Assumptions C07_realtime_cache_transparent.
    (instance: K = sqlt * nat, hash = pair - injective by construction) *)
 Definition s0 (fx : fixes) : state KI :=
   init_state KI [LPlain "inp"] 0 ["first_name"; "surname"] 0 5 6 fx.
-Definition unfixed : fixes := {| fx77 := false; fx716 := false; fx715 := false; fx718 := false |}.
-Definition repaired : fixes := {| fx77 := true; fx716 := true; fx715 := true; fx718 := true |}.
+Definition unfixed : fixes := {| fx77 := false; fx716 := false; fx715 := false; fx718 := false; fxba := false |}.
+Definition repaired : fixes := {| fx77 := true; fx716 := true; fx715 := true; fx718 := true; fxba := true |}.
 Definition predict_prov (s : state KI) : prov := result_prov KI keqbI hashI s Predict.
 
 (* (a) DESIGN 7.7: predict; register_term_frequency_lookup; predict - on the unrepaired tree the named
@@ -217,7 +217,7 @@ Print Assumptions C07_invalidate_reflects_new_data_refuted_when_results_are_reta
    of every derived table is textually unchanged: on the unrepaired tree the old __splink__df_predict is served *)
 Theorem C07_predict_equals_fresh_refuted_lookup_overwrite :
   exists ops,
-    let fx := {| fx77 := true; fx716 := true; fx715 := true; fx718 := false |} in
+    let fx := {| fx77 := true; fx716 := true; fx715 := true; fx718 := false; fxba := false |} in
     let s := run KI keqbI hashI (s0 fx) ops in
     predict_prov s <> predict_prov (fresh_of KI keqbI s 777 888).
 Proof.
